@@ -18,7 +18,7 @@ RULE = (
     "Generated: one task, 1-4 clients; mode iteration-based (warm-up 0-3 / None, iterations 1-8; 1 in 5 with a runner that can report completion but does not within the iterations) | time-based (warm-up 0..4 s / None, "
     "period 1..10 s, optional ramp-up <= warm-up with global client index / total clients) | finite parameter source (equal or different length per client, then in half of the cases as the task that completes its parallel element) | runner-defined "
     "completion | nothing specified; target throughput number / '<n> unit/s' / target-interval / none; deterministic / poisson / no "
-    "schedule; weights changing between requests, failing requests (weight 0), unit mismatches; service times 1/1024..12.5 s. "
+    "schedule; throughput strings written as a track author may (0.5 / .5 / 0.50 / 00.5 / tab before the unit); weights changing between requests, failing requests (weight 0), unit mismatches; service times 1/1024..12.5 s. "
     "Non-trivial = (time-based with a request straddling the warm-up or the end boundary) or (warm-up > 0 and iterations > 0 and "
     "clients >= 2) or (throttled and the reported weight changed between requests). Distinct = distinct canonical JSON."
 )
